@@ -4,11 +4,13 @@ package main
 // (*cff.Outlines).MakeSimple, (*sfnt.Font).PostScriptName.
 
 import (
+	"bytes"
 	"encoding/hex"
 	"fmt"
 	"sort"
 	"strings"
 
+	"seehuhn.de/go/geom/matrix"
 	"seehuhn.de/go/postscript/cid"
 	"seehuhn.de/go/postscript/type1"
 	"seehuhn.de/go/postscript/type1/names"
@@ -344,11 +346,73 @@ func init() {
 			return "ok"
 		}))
 	}
+	// direct check on the real code: EnsureGlyphNames installs exactly the names MakeGlyphNames
+	// returns, they are non-empty, pairwise distinct, glyph 0 is .notdef, and (simple CFF outlines)
+	// the written CFF font reads back with the same names
+	ops["gnames.readback"] = func(f Fields) string {
+		font, bad := gnFont(f)
+		if bad != "" {
+			return bad
+		}
+		return canonPanic(guard(func() string {
+			want := font.MakeGlyphNames()
+			font.EnsureGlyphNames()
+			got := gnInstalled(font)
+			seen := map[string]int{}
+			for i, nm := range got {
+				if nm == "" {
+					return fmt.Sprintf("empty-name:glyph=%d", i)
+				}
+				if i < len(want) && nm != want[i] {
+					return fmt.Sprintf("installed-differs:glyph=%d:%x:%x", i, nm, want[i])
+				}
+				if j, dup := seen[nm]; dup {
+					return fmt.Sprintf("duplicate:glyphs=%d,%d:%x", j, i, nm)
+				}
+				seen[nm] = i
+			}
+			if len(got) != len(want) {
+				return "length-differs"
+			}
+			if got[0] != ".notdef" {
+				return fmt.Sprintf("glyph0:%x", got[0])
+			}
+			o, ok := font.Outlines.(*cff.Outlines)
+			if !ok || o.ROS != nil {
+				return "ok"
+			}
+			for _, g := range o.Glyphs {
+				if len(g.Name) > 60 {
+					return "ok" // beyond what this check is about
+				}
+			}
+			o.Encoding = cff.StandardEncoding(o.Glyphs)
+			cf := &cff.Font{FontInfo: &type1.FontInfo{FontName: "Test", FontMatrix: matrix.Matrix{0.001, 0, 0, 0.001, 0, 0}}, Outlines: o}
+			var buf bytes.Buffer
+			if err := cf.Write(&buf); err != nil {
+				return "ok" // not writable for a reason unrelated to names is outside this check
+			}
+			back, err := cff.Read(bytes.NewReader(buf.Bytes()))
+			if err != nil {
+				return "reread-error"
+			}
+			if len(back.Glyphs) != len(got) {
+				return "reread-count"
+			}
+			for i, g := range back.Glyphs {
+				if g.Name != got[i] {
+					return fmt.Sprintf("reread-differs:glyph=%d:%x:%x", i, g.Name, got[i])
+				}
+			}
+			return "ok"
+		}))
+	}
 	yes := func(f Fields) string { return "yes" }
 	ops["gnames.complete"] = yes
 	ops["gnames.unique"] = yes
 	ops["gnames.notdef"] = yes
 	ops["gnames.kept"] = yes
+	ops["gnames.explained"] = yes
 }
 
 var gnPool = []string{"A", "B", "a", "f", "i", "fi", "f_i", "space", "orn001", "orn002", "orn003", "A.1", "A.2", "a.1",
@@ -560,6 +624,12 @@ func gnCase(c *Ctx, n int, oob bool) {
 		return
 	}
 	nontriv := n >= 2 && (cm != "-" || ns > 0)
+	gnEmit(c, kind, n, nms, line, nontriv, r.Chance(1, 2))
+}
+
+// gnEmit records the verdict case for MakeGlyphNames and the direct predicates on its real output;
+// with ensure also EnsureGlyphNames, the predicates on the installed names and the read-back.
+func gnEmit(c *Ctx, kind string, n int, nms []string, line string, nontriv, ensure bool) {
 	out := c.Case(Verdict, "gnames.make", line, nontriv)
 	switch {
 	case out == "panic":
@@ -582,9 +652,152 @@ func gnCase(c *Ctx, n int, oob bool) {
 	c.Case(Direct, "gnames.unique", o, nontriv)
 	c.Case(Direct, "gnames.notdef", o, nontriv)
 	c.Case(Direct, "gnames.kept", fmt.Sprintf("in=%d init=%s ", len(init), gnHexNames(init))+o, nontriv)
-	if r.Chance(1, 2) {
-		c.Case(Verdict, "gnames.ensure", line, nontriv)
+	// every name is an existing name, a cmap name, a variant of a source glyph's name, the joined
+	// names of exactly one ligature rule's components, or a placeholder
+	c.Case(Direct, "gnames.explained", line+" "+o, nontriv)
+	if !ensure {
+		return
 	}
+	eo := c.Case(Verdict, "gnames.ensure", line, nontriv)
+	if i := strings.IndexByte(eo, ';'); i >= 0 {
+		io := fmt.Sprintf("on=%d out=%s", n, eo[:i])
+		c.Case(Direct, "gnames.complete", fmt.Sprintf("n=%d ", n)+io, nontriv)
+		c.Case(Direct, "gnames.unique", io, nontriv)
+		c.Case(Direct, "gnames.notdef", io, nontriv)
+	}
+	c.Case(Direct, "gnames.readback", line, nontriv)
+}
+
+// gnLigFamily: fonts with missing names and a GSUB 4.1 ligature set of several rules where an
+// earlier rule is abandoned half-way (some components named, a later one unnamed, unmapped or
+// outside the font) and later rules of the same set name their outputs.
+func gnLigFamily(c *Ctx) {
+	r := c.Rng
+	n := r.Range(9, 14)
+	kind := Pick(r, []string{"glyf", "cff"})
+	nms := make([]string, n)
+	if kind == "glyf" && r.Chance(1, 3) {
+		nms = nil
+	} else if r.Chance(1, 2) {
+		nms[0] = ".notdef"
+		if r.Bool() {
+			nms[1] = "f"
+		}
+	}
+	// glyphs 1..3 (and sometimes 4) are named through the cmap; glyph 5 stays unnamed until the end
+	letters := []int{'f', 'i', 'l', 't'}
+	named := 3 + r.Intn(2)
+	var cp, fu []string
+	for i := 0; i < named; i++ {
+		cp = append(cp, fmt.Sprintf("%d:%d", letters[i], i+1))
+		fu = append(fu, fmt.Sprintf("%d:%s", letters[i], hex.EncodeToString([]byte(names.FromUnicode(string(rune(letters[i])))))))
+	}
+	// cmap codes must be listed in increasing order of the code
+	sort.Slice(cp, func(a, b int) bool { var x, y int; fmt.Sscan(cp[a], &x); fmt.Sscan(cp[b], &y); return x < y })
+	for i := range cp {
+		var x, g int
+		fmt.Sscanf(cp[i], "%d:%d", &x, &g)
+		fu[i] = fmt.Sprintf("%d:%s", x, hex.EncodeToString([]byte(names.FromUnicode(string(rune(x))))))
+	}
+	unnamed := Pick(r, []int{5, 5, 5, n, 65535}) // a glyph without any name source, or one outside the font
+	first := r.Range(1, named)
+	nextOut := 6
+	var rules []string
+	nrules := r.Range(2, 4)
+	abandonedAt := r.Intn(nrules - 1) // never the last rule
+	for k := 0; k < nrules; k++ {
+		var in []int
+		if k == abandonedAt {
+			for j := r.Range(1, 3); j > 0; j-- {
+				in = append(in, r.Range(1, named))
+			}
+			in = append(in, unnamed)
+			if r.Chance(1, 3) {
+				in = append(in, r.Range(1, named))
+			}
+			c.Stat("lig-family-abandoned-prefix", bucket(len(in)-1))
+		} else {
+			for j := r.Range(1, 2); j > 0; j-- {
+				in = append(in, r.Range(1, named))
+			}
+		}
+		out := nextOut
+		if nextOut < n-1 {
+			nextOut++
+		}
+		rules = append(rules, fmt.Sprintf("%s>%d", ints(in), out))
+	}
+	gs := fmt.Sprintf("lg:%d-0:%s|", first, strings.Join(rules, "/"))
+	if r.Chance(1, 3) {
+		gs = "s1:1:1;" + gs
+	}
+	c.Stat("stream", "ligature-set-with-abandoned-rule")
+	line := fmt.Sprintf("kind=%s n=%d nn=%d names=%s cmap=%s fu=%s gsub=%s", kind, n, len(nms), gnHexNames(nms), strings.Join(cp, ","), strings.Join(fu, ","), gs)
+	if kind == "cff" && len(nms) != n {
+		return
+	}
+	if _, bad := gnFont(parseFields(line)); bad != "" {
+		c.Stat("case-rejected", bad)
+		return
+	}
+	gnEmit(c, kind, n, nms, line, true, r.Chance(1, 3))
+}
+
+// gnDupCffFamily: CFF fonts whose existing names contain duplicates and/or whose glyph 0 carries a
+// non-empty name other than .notdef; EnsureGlyphNames, per-glyph read-back, Write + Read.
+func gnDupCffFamily(c *Ctx) {
+	r := c.Rng
+	n := r.Range(2, 10)
+	nms := make([]string, n)
+	pool := []string{"A", "B", "C", "D", "space", "A", "B"}
+	for i := range nms {
+		switch r.Intn(5) {
+		case 0:
+		default:
+			nms[i] = Pick(r, pool)
+		}
+	}
+	switch r.Intn(3) {
+	case 0:
+		nms[0] = ".notdef"
+		c.Stat("dup-cff-glyph0", ".notdef")
+	case 1:
+		nms[0] = Pick(r, []string{"space", "A", "zero"})
+		c.Stat("dup-cff-glyph0", "other-name")
+	default:
+		nms[0] = ""
+		c.Stat("dup-cff-glyph0", "empty")
+	}
+	seen, dup := map[string]bool{}, false
+	for i, nm := range nms {
+		if i > 0 && nm != "" && seen[nm] {
+			dup = true
+		}
+		seen[nm] = true
+	}
+	if dup {
+		c.Stat("dup-cff-duplicates", "yes")
+	} else {
+		c.Stat("dup-cff-duplicates", "no")
+	}
+	var cp, fu []string
+	for i, code := range []int{'A', 'B', 'C', 'D', 'E', 'F', 'G', 'H', 'I'} {
+		if i+1 < n && r.Chance(3, 4) {
+			cp = append(cp, fmt.Sprintf("%d:%d", code, i+1))
+			fu = append(fu, fmt.Sprintf("%d:%s", code, hex.EncodeToString([]byte(names.FromUnicode(string(rune(code)))))))
+		}
+	}
+	cm := "-"
+	if len(cp) > 0 {
+		cm = strings.Join(cp, ",")
+	}
+	c.Stat("stream", "cff-duplicate-or-glyph0-names")
+	line := fmt.Sprintf("kind=cff n=%d nn=%d names=%s cmap=%s fu=%s gsub=", n, n, gnHexNames(nms), cm, strings.Join(fu, ","))
+	if _, bad := gnFont(parseFields(line)); bad != "" {
+		c.Stat("case-rejected", bad)
+		return
+	}
+	gnEmit(c, "cff", n, nms, line, true, true)
 }
 
 func gnCffCase(c *Ctx) {
@@ -769,8 +982,16 @@ func areaGNames(c *Ctx) {
 	for _, l := range fixed {
 		c.Case(Verdict, "gnames.make", l, true)
 	}
+	// ligature set with a rule abandoned half-way; CFF names with a duplicate / a named glyph 0
+	gnEmit(c, "cff", 8, make([]string, 8), "kind=cff n=8 nn=8 names=,,,,,,, cmap=102:1,105:2,108:3 fu=102:66,105:69,108:6c gsub=lg:1-0:1,4>5/2>6/3>7|", true, true)
+	gnEmit(c, "cff", 4, []string{".notdef", "A", "B", "A"}, "kind=cff n=4 nn=4 names=2e6e6f74646566,41,42,41 cmap=65:1,66:2,67:3 fu=65:41,66:42,67:43 gsub=", true, true)
+	gnEmit(c, "cff", 4, []string{"space", "A", "B", "C"}, "kind=cff n=4 nn=4 names=7370616365,41,42,43 cmap=65:1,66:2,67:3 fu=65:41,66:42,67:43 gsub=", true, true)
 	for i := 0; i < c.N; i++ {
 		switch {
+		case i%20 == 7:
+			gnLigFamily(c)
+		case i%20 == 17:
+			gnDupCffFamily(c)
 		case i%10 == 8:
 			gnCffCase(c)
 		case i%10 == 9:
